@@ -77,7 +77,17 @@ def std_hooks():
 
     def ifl(I, e, args, kw, env):
         return iter(list(iter_fields(args[0]))) if isinstance(args[0], Obj) else TOP
-    return {'get_parent': get_parent, 'set_parent': set_parent, 'ast.iter_child_nodes': icn, 'ast.iter_fields': ifl, 'iter_child_nodes': icn, 'iter_fields': ifl}
+    def awalk(I, e, args, kw, env):
+        # ast.walk: breadth first over the descriptor tree, in the order of the standard library
+        if not isinstance(args[0], Obj):
+            return TOP
+        out, todo = [], [args[0]]
+        while todo:
+            n = todo.pop(0)
+            out.append(n)
+            todo.extend(children(n))
+        return iter(out)
+    return {'get_parent': get_parent, 'set_parent': set_parent, 'ast.iter_child_nodes': icn, 'ast.iter_fields': ifl, 'iter_child_nodes': icn, 'iter_fields': ifl, 'ast.walk': awalk}
 
 
 # ---- tiny constructors
